@@ -272,7 +272,8 @@ fn flushrace_filter(prop: &str) -> impl Fn(&String) -> bool {
         "C08" => m.starts_with("RETAINED"),
         "C03" => m.starts_with("INCOMPLETE") || m.starts_with("span "),
         "C04" => m.starts_with("CANCELLED-DELIVERED"),
-        _ => !m.starts_with("BLOCKED") && !m.starts_with("RETAINED") && !m.starts_with("INCOMPLETE") && !m.starts_with("CANCELLED-DELIVERED"),
+        "C09" => m.starts_with("FULL-LOST"),
+        _ => !m.starts_with("BLOCKED") && !m.starts_with("RETAINED") && !m.starts_with("INCOMPLETE") && !m.starts_with("CANCELLED-DELIVERED") && !m.starts_with("FULL-LOST"),
     }
 }
 fn flushrace_sig(prop: &str) -> &'static str {
@@ -281,6 +282,7 @@ fn flushrace_sig(prop: &str) -> &'static str {
         "C08" => "retained-after-overlapping-flushes",
         "C03" => "flush-overlap:trace-incomplete",
         "C04" => "flush-overlap:cancelled-trace-delivered",
+        "C09" => "full-queue:finish-signal-lost-at-flush",
         _ => "flush-overlap:not-delivered-by-flush",
     }
 }
